@@ -120,7 +120,11 @@ def run(ctx: Ctx, extended: bool = False) -> None:
                         impl_out.append("ok")
                     except ValueError as e:
                         msg = str(e)
-                        impl_out.append({"error": "malformed" if "Malformed" in msg else "version_missing" if "Version missing" in msg else "already_registered"})
+                        if "Malformed" in msg or "Version missing" in msg:
+                            impl_out.append({"error": "malformed" if "Malformed" in msg else "version_missing"})
+                        else:   # the exact error: which (normalised) id is refused
+                            mo_ = re.fullmatch(r"(?s)Trying to override the registered environment (.*)\.", msg)
+                            impl_out.append({"error": "already_registered", "id": mo_.group(1) if mo_ else msg})
                 elif f == "make":
                     calls.append({"f": f, "chars": annotate(idn), "kw": [[k, v] for k, v in kw.items()]})
                     try:
@@ -131,7 +135,8 @@ def run(ctx: Ctx, extended: bool = False) -> None:
                         if "Unregistered" in msg:
                             listed = sorted(x[2:] for x in msg.split("\n") if x.startswith("- "))
                             listed = [x.rstrip(".") for x in listed]
-                            impl_out.append({"error": "unregistered", "registered": listed})
+                            mo_ = re.match(r"(?s)Unregistered environment (.*?)\. Please select from the registered environments", msg)
+                            impl_out.append({"error": "unregistered", "id": mo_.group(1) if mo_ else msg, "registered": listed})
                         else:
                             impl_out.append({"error": "malformed" if "Malformed" in msg else "version_missing"})
                 else:
@@ -143,8 +148,12 @@ def run(ctx: Ctx, extended: bool = False) -> None:
             def norm(x):
                 if isinstance(x, dict) and "kw" in x:
                     return {"ep": x["ep"], "kw": sorted(x["kw"])}
+                def txt(c):
+                    return "".join(map(chr, c)) if isinstance(c, list) else c
                 if isinstance(x, dict) and "registered" in x:
-                    return {"error": x["error"], "registered": sorted("".join(map(chr, c)) if isinstance(c, list) else c for c in x["registered"])}
+                    return {"error": x["error"], "id": txt(x.get("id")), "registered": sorted(txt(c) for c in x["registered"])}
+                if isinstance(x, dict) and "id" in x:
+                    return {"error": x["error"], "id": txt(x["id"])}
                 if isinstance(x, list):
                     return sorted("".join(map(chr, c)) if isinstance(c, list) else c for c in x)
                 return x
